@@ -130,6 +130,8 @@ PROPS["C07"] = dict(
         H("c07_window::c07_file_b0_c2_witness", kind="witness", **_c07_common),
         H("c07_window::c07_file_b1_c2", instance="a.{} base 1 count 2", symbolic="window state, name below the window, bystander", bound="unwind 8", **_c07_common),
         H("c07_window::c07_dir_b0_c2", instance="{}/a base 0 count 2 (index in a directory component)", symbolic="window state, bystander", bound="unwind 8", **_c07_common),
+        H("c07_window::c07_dirfile_b0_c2", instance="{}/a.{} base 0 count 2 (index in a directory component AND in the file name)", symbolic="window state, bystander", bound="unwind 10", **_c07_common),
+        H("c07_window::c07_dirfile_b1_c3", tier="thorough", instance="{}/a.{} base 1 count 3", symbolic="window state", bound="unwind 10", **_c07_common),
         H("c07_window::c07_file_b0_c3", tier="thorough", instance="a.{} base 0 count 3", symbolic="window state", bound="unwind 8", **_c07_common),
         H("c07_window::c07_file_b3_c2", tier="thorough", instance="a.{} base 3 count 2", symbolic="window state", bound="unwind 8", **_c07_common),
         H("c07_window::c07_file_b0_c2_two_rolls", tier="thorough", instance="a.{} base 0 count 2, 2 successive rolls", symbolic="window state", bound="unwind 8", **_c07_common),
@@ -457,8 +459,8 @@ PROPS["C17"] = dict(
 # the fan-out at the nesting depth of the instance (+1); their unwinding assertions stay on
 WRITE_REC = [(r"as std::io::Write>::(flush|write|write_all|write_fmt)$", None, 3),
              (r"as log4rs::encode::Write>::set_style$", None, 3),
-             (r"^log4rs::encode::pattern::Chunk::encode$", None, 4),
-             (r"^log4rs::encode::pattern::FormattedChunk::encode$", None, 4)]
+             (r"^log4rs::encode::pattern::Chunk::encode$", None, 2),
+             (r"^log4rs::encode::pattern::FormattedChunk::encode$", None, 2)]
 SINK_LOOPS = [(r"^<(c12_json::BigSink|c10_width::Sink|c09_pattern::Rec) as std::io::Write>::write", "*", 64),
               (r"^c12_json::Out::", "*", 64), (r"^(c12_json|c09_pattern|c10_width|c11_safe)::body", "*", 300)]
 _p = dict(timeout=1800, mem_gb=12, unwindset=WRITE_REC + SINK_LOOPS)
@@ -614,6 +616,8 @@ PROPS["C13"]["assumptions"] += ["E1: the two HashSet<String> of build_lossy are 
 PROPS["C13"]["level_text"] += " Builder: for every choice of names from the pools the reported errors equal the reference list item by item (nothing missing, nothing innocent), strict build succeeds iff that list is empty, and the lossy result consists of exactly the valid items in order."
 PROPS["C13"]["level_note"] = "Trusted: Kani/CBMC/CaDiCaL, E1."
 PROPS["C13"]["harnesses"] += [
+    H("c13_builder::strict_1x1_free_logger", timeout=1800, mem_gb=12, instance="strict, 1 appender, 1 logger", symbolic="the logger's name", bound="unwind 8"),
+    H("c13_builder::lossy_1x2_free_logger", timeout=1800, mem_gb=12, instance="lossy, 1 appender, loggers [a::b, ?]", symbolic="the second logger's name", bound="unwind 8"),
     H("c13_builder::lossy_free_appender", timeout=1800, mem_gb=12, instance="lossy, appenders [A, ?], loggers a, a::b (valid)", symbolic="the second appender's name over {A,B}", bound="unwind 8"),
     H("c13_builder::lossy_free_appender_witness", kind="witness", timeout=1800, mem_gb=12),
     H("c13_builder::lossy_free_logger", timeout=1800, mem_gb=12, instance="lossy, loggers [a, ?]", symbolic="the second logger's name over {a, a::b, b, 'a:', ''}", bound="unwind 8"),
@@ -636,3 +640,35 @@ PROPS["C18"]["harnesses"] += [
     H("c18_console::console_policy_witness", kind="witness", timeout=1800, mem_gb=12),
     H("c18_console::console_policy_known", kind="finding", timeout=1800, mem_gb=12, instance="the recorded finding's class: tty_only with a colour decision that differs from terminal detection", symbolic="as above", bound="unwind 16"),
 ]
+
+_f = dict(timeout=1800, mem_gb=12, unwindset=HARNESS_LOOPS + BT_LOOPS)
+PROPS["C08"] = dict(
+    functions=["<FixedWindowRoller as Roll>::roll", "fixed_window::rotate", "fixed_window::move_file",
+               "<RollingFileAppender as Append>::append", "RollingFileAppender::get_writer", "LogFile::roll"],
+    bounds="roller level: count 2 and 3, base 0, every initial window state, EVERY file-system step of the rotation as the step "
+           "that fails and (independently) as the point of process death (crash image taken at the guarded callback before the step), "
+           "followed by one more roll after the failure; appender level: three appends where the second one's roll is obstructed (a "
+           "non-empty directory at the archive name), pre- and post-processing policy, append mode (truncate mode: recorded finding)",
+    outside="counts above 3, base > 0, the copy+remove fallback failing half way, compression, failures of the write path itself, "
+            "a restarted (rebuilt) appender after the failure",
+    assumptions=_fs_assumptions + [
+        "hook verif_hooks::rotate_step: a callback point before every file-system step of rotate(); the harness uses it to take the "
+        "crash image and to make exactly that step fail with a non-NotFound error (same mechanism under Kani and natively)",
+        "roller level reaches anyhow conversions: <anyhow::Error as From<io::Error>>::from is NOT cut there"],
+    level_text="Bounded model checking with the failing step and the crash point as solver variables: the failing roll returns an "
+               "error (no reachable panic), at the crash point and after the failure every file the completed rotation would retain is "
+               "still on disk, whole, and oldest-to-newest reading never goes back in age; the same roller then completes a rotation. "
+               "Appender level: the failing append returns Err, the next append succeeds and the record acknowledged before the failed "
+               "rotation is still in the active file ahead of the new one.",
+    level_note="Trusted: Kani/CBMC/CaDiCaL, E3/E4. A step is made to fail before it has any effect (rename is atomic).",
+    design_ref="DESIGN.md section 5, C08",
+    harnesses=[
+        H("c08_faults::fault_roller_c2", instance="roller, count 2", symbolic="window state, failing step 0..1 or none, crash point 0..1", bound="unwind 8", **_f),
+        H("c08_faults::fault_roller_c2_witness", kind="witness", **_f),
+        H("c08_faults::fault_roller_c3", tier="thorough", instance="roller, count 3", symbolic="window state, failing step 0..2 or none, crash point 0..2", bound="unwind 8", timeout=3600, mem_gb=14, unwindset=HARNESS_LOOPS + BT_LOOPS),
+        H("c08_faults::fault_appender_post", instance="appender, post-processing policy, append mode", symbolic="record lengths", bound="unwind 10", **_f),
+        H("c08_faults::fault_appender_post_witness", kind="witness", **_f),
+        H("c08_faults::fault_appender_pre", tier="thorough", instance="appender, pre-processing policy, append mode", symbolic="record lengths", bound="unwind 10", timeout=3600, mem_gb=14, unwindset=HARNESS_LOOPS + BT_LOOPS),
+        H("c08_faults::fault_appender_post_known", kind="finding", instance="appender, post-processing policy, truncate mode (class of the recorded finding)", symbolic="record lengths", bound="unwind 10", **_f),
+    ],
+)
